@@ -21,7 +21,11 @@ pub struct Context {
 
     function_to_scope: HashMap<ir::FunctionId, ScopeIndex>,
     struct_template_data: Vec<StructTemplateData>,
+    struct_template_depth: u32,
 }
+
+/// Maximum number of struct template instantiations that may be in progress inside each other
+const MAX_STRUCT_TEMPLATE_DEPTH: u32 = 16;
 
 pub type ScopeIndex = usize;
 
@@ -86,6 +90,7 @@ impl Context {
             current_scope: 0,
             function_to_scope: HashMap::new(),
             struct_template_data: Vec::new(),
+            struct_template_depth: 0,
         };
 
         // For each builtin global value
@@ -412,7 +417,16 @@ impl Context {
             let struct_template_data = &mut self.struct_template_data[id.0 as usize];
             let sid_res = match struct_template_data.instantiations.get(&final_params) {
                 Some(sid) => Ok(*sid),
-                None => build_struct_from_template(ast, inst_scope, self),
+                // A template that uses an instantiation of itself as a member would otherwise never finish
+                None if self.struct_template_depth >= MAX_STRUCT_TEMPLATE_DEPTH => {
+                    Err(TyperError::TemplateInstantiationTooDeep(error_loc))
+                }
+                None => {
+                    self.struct_template_depth += 1;
+                    let sid_res = build_struct_from_template(ast, inst_scope, self);
+                    self.struct_template_depth -= 1;
+                    sid_res
+                }
             };
 
             // Back to calling scope
